@@ -471,6 +471,46 @@ Proof.
   - intros x Hx. apply in_or_app. now left.
 Qed.
 
+(* niche balance at the level of selNSGA3: counts = members of the earlier fronts + selected members
+   of the last front, per niche; positions i refer to the last front, whose association is niches[sc+i] *)
+Theorem nsga3_core_balanced (fronts : list (list nat)) (k R : nat) (niches : list nat) (dist : list T) draws :
+  fronts <> [] -> NoDup (concat fronts) ->
+  length niches = length (concat fronts) -> Forall (fun c => c < R) niches ->
+  length (concat (removelast fronts)) < k <= length (concat fronts) ->
+  let o := nsga3_core ltb dflt fronts k R niches dist draws in
+  let sc := length (concat (removelast fronts)) in
+  let lastf := last fronts [] in
+  exists sel,
+    o_chosen o = concat (removelast fronts) ++ map (fun i => nth i lastf 0) sel /\
+    NoDup sel /\ (forall i, In i sel -> i < length lastf) /\ length sel = k - sc /\
+    (forall c, c < R -> nth c (o_counts o) 0 =
+                        count_occ_nat (firstn sc niches) c + length (filter (fun i => Nat.eqb (nth (sc + i) niches 0) c) sel)) /\
+    (forall a b, (exists i, In i sel /\ nth (sc + i) niches 0 = a) ->
+                 (exists i, i < length lastf /\ ~ In i sel /\ nth (sc + i) niches 0 = b) ->
+                 nth a (o_counts o) 0 <= nth b (o_counts o) 0 + 1).
+Proof.
+  intros Hne ND Ln Hn Hk. unfold nsga3_core. cbn zeta.
+  set (chosen := concat (removelast fronts)). set (lastf := last fronts []).
+  assert (E : concat fronts = chosen ++ lastf) by (apply concat_removelast_last; exact Hne).
+  rewrite E in ND, Ln, Hk. rewrite app_length in Ln, Hk.
+  set (sc := length chosen) in *. set (n := k - sc).
+  set (counts0 := tab R (count_occ_nat (firstn sc niches))).
+  assert (Lsk : length (skipn sc niches) = length lastf) by (rewrite skipn_length; lia).
+  assert (Hlt : forall i, i < length (skipn sc niches) -> nth i (skipn sc niches) 0 < R).
+  { intros i Hi. rewrite nth_skipn. rewrite Forall_forall in Hn. apply Hn. apply nth_In.
+    rewrite skipn_length in Hi. lia. }
+  destruct (niching_spec ltb dflt (skipn sc niches) (skipn sc dist) R Hlt n counts0 draws
+              (tab_length _ _) ltac:(unfold n; lia)) as [Ok [Len [NDs [Hs [Hc Hb]]]]].
+  set (s := niching ltb dflt n (skipn sc niches) (skipn sc dist) counts0 draws) in *.
+  exists (ns_sel s). cbn [o_chosen o_counts].
+  split; [reflexivity|]. split; [exact NDs|]. split; [intros i Hi; rewrite <- Lsk; auto|]. split; [exact Len|]. split.
+  - intros c HcR. rewrite (Hc c HcR). unfold counts0. rewrite (nth_tab R _ c 0 HcR). f_equal.
+    unfold cnt_sel. f_equal. apply filter_ext. intro i. now rewrite nth_skipn.
+  - intros a b [i [Hi Ha]] [j [Hj [Hnj Hbj]]]. apply Hb.
+    + exists i. split; [exact Hi|]. now rewrite nth_skipn.
+    + exists j. split; [rewrite Lsk; exact Hj|]. split; [exact Hnj|]. now rewrite nth_skipn.
+Qed.
+
 (* front priority against any ranking for which `fronts` are the leading fronts *)
 Theorem nsga3_front_priority (pop : list nat) (rank : nat -> nat)
         (fronts : list (list nat)) (k R : nat) (niches : list nat) (dist : list T) draws :
@@ -653,19 +693,6 @@ Qed.
 (* best / worst point memory *)
 Local Close Scope Q_scope.
 
-Lemma fold_max_ge : forall l a, (a <= fold_left Z.max l a)%Z /\ forall x, In x l -> (x <= fold_left Z.max l a)%Z.
-Proof.
-  induction l as [|y l IH]; intros a; cbn [fold_left]; [split; [lia|intros x []]|].
-  destruct (IH (Z.max a y)) as [H1 H2]. split; [lia|]. intros x [<-|Hx]; [lia|auto].
-Qed.
-
-Lemma fold_max_in : forall l a, fold_left Z.max l a = a \/ In (fold_left Z.max l a) l.
-Proof.
-  induction l as [|y l IH]; intros a; cbn [fold_left]; [now left|].
-  destruct (IH (Z.max a y)) as [H|H]; [|right; now right].
-  destruct (Z.max_spec a y) as [[_ E]|[_ E]]; rewrite E in H |- *; [right; left; congruence|now left].
-Qed.
-
 (* best / worst points: coordinatewise extremes of everything seen *)
 Lemma col_fold_min_spec : forall (rest : list (list Z)) (r : list Z) c,
   (forall row, In row rest -> length row = length r) -> (c < length r)%nat ->
@@ -787,4 +814,13 @@ Proof.
   intros Hr Hf ND L Hk. unfold nsga3. cbn [snd].
   destruct (associate_lt eps fits refs best icpt Hr) as [A B].
   apply nsga3_core_spec; auto. now rewrite B.
+Qed.
+
+Lemma associate_nth (eps : Q) fits refs best icpt i : (i < length fits)%nat ->
+  nth i (associate q_ops eps fits refs best icpt) 0%nat =
+  associate_one q_ops refs (normalise q_ops eps (nth i fits []) best icpt).
+Proof.
+  intro Hi. unfold associate.
+  rewrite (nth_indep _ 0%nat ((fun f => associate_one q_ops refs (normalise q_ops eps f best icpt)) [])) by (rewrite map_length; exact Hi).
+  apply (map_nth (fun f => associate_one q_ops refs (normalise q_ops eps f best icpt))).
 Qed.
